@@ -278,6 +278,9 @@ func (p *Prog) c17held(fn *ssa.Function, in ssa.Instruction, root ssa.Value, mu 
 		if _, fresh := c17root(args[idx]).(*ssa.Alloc); fresh {
 			continue // the caller allocated the object itself: not shared yet (constructor)
 		}
+		if !c17reachableUnder(fn, in, cs.Call) {
+			continue // the access sits behind a flag parameter that this call site passes the other constant for
+		}
 		m, why := p.c17held(cs.Fn, cs.Call, c17root(args[idx]), mu, depth+1)
 		if m == 0 {
 			return 0, why + " (calls " + fnName(fn) + ")"
@@ -650,4 +653,27 @@ func (p *Prog) c17accessPoints(fn *ssa.Function, direct map[*ssa.Function][]c17A
 		}
 	})
 	return out
+}
+
+// c17reachableUnder: can instruction in of fn execute when fn is entered through call? A boolean
+// parameter the call passes a constant for decides the branches on it (a flag-parameter helper is judged
+// per call site, with the flag's value).
+func c17reachableUnder(fn *ssa.Function, in ssa.Instruction, call ssa.CallInstruction) bool {
+	cuts := newCuts()
+	for j, arg := range call.Common().Args {
+		bv, isC := constBool(arg)
+		if !isC || j >= len(fn.Params) {
+			continue
+		}
+		tE, fE := boolEdges(fn, fn.Params[j])
+		if bv {
+			cuts.AddEdges(fE...)
+		} else {
+			cuts.AddEdges(tE...)
+		}
+	}
+	if len(cuts.Edges) == 0 {
+		return true
+	}
+	return findPath(entryPoint(fn), Target{Instr: in}, cuts) != nil
 }
